@@ -4,6 +4,8 @@ import json, os, subprocess
 V = os.path.dirname(os.path.abspath(__file__))
 cfg = {n[:-5]: json.load(open(os.path.join(V, "checks.d", n))) for n in sorted(os.listdir(os.path.join(V, "checks.d"))) if n.endswith(".json")}
 baseline = json.load(open("/root/.vp/BASELINE.json"))
+props_ids = {json.loads(l)["id"] for l in open(os.path.join(V, "properties.jsonl")) if l.strip()}
+cfg = {k: v for k, v in cfg.items() if k in props_ids}   # auxiliary checks (e.g. GRP) are not properties
 hooks_commits = []
 try:
     out = subprocess.run(["git", "-C", "/repo", "log", "--format=%H %s"], capture_output=True, text=True).stdout
